@@ -844,6 +844,9 @@ def excel_cases(draw):
 def df_cases(draw):
     desc = draw(desc_strategy("df"))
     rows = len(desc["curves"][0][5]) if desc.get("curves") else 0
+    # a rename after construction can leave two curves whose names differ in case only inside a case-insensitive section,
+    # unnumbered; set_data then numbers them: such a start state is not one the statement's round trip speaks about
+    desc.pop("rename", None)
     if rows == 0:
         # with no samples set_data() does not assign the frame's names at all and simply renumbers the duplicates: the
         # stale suffixes a deletion leaves behind (GR:2, GR:3) are then not "restored" - the statement's round trip is
